@@ -486,9 +486,16 @@ pub fn addr_in(rng: &mut Rng, reg: Region, n: u32) -> u32 {
     };
     let last = hi + 1 - n; // last start address that still fits
     // an address named in the emulator's source, if it lies in this region
-    if rng.chance(1, 16) {
+    // ... or an address of this region that shares its low 16 / low 8 bits with one (partial decoding)
+    if rng.chance(1, 12) {
         if let Some(v) = crate::util::dict_value(rng) {
-            let v = if n > 1 { v & 0xff_fffe } else { v & 0xff_ffff };
+            let r = lo + rng.below((last - lo + 1) as u64) as u32;
+            let v = match rng.below(3) {
+                0 => v & 0xff_ffff,
+                1 => (r & !0xffff) | (v & 0xffff),
+                _ => (r & !0xff) | (v & 0xff),
+            };
+            let v = if n > 1 { v & !1 } else { v };
             if v >= lo && v <= last {
                 return v;
             }
